@@ -309,6 +309,10 @@ func (a *widthAnalysis) instr(f *ssa.Function, in ssa.Instruction) {
 		a.set(v, a.source(v.Type()))
 	case *ssa.Call:
 		com := v.Call
+		if calleeName(a.c, v) == "(int128).toFloat64" {
+			a.set(v, wval{wIFlt, 2*a.w + 2})
+			return
+		}
 		if sc := com.StaticCallee(); sc != nil && a.c.inRepo(sc) && sc.Blocks != nil {
 			for i, p := range sc.Params {
 				if i < len(com.Args) {
@@ -341,6 +345,10 @@ func (a *widthAnalysis) instr(f *ssa.Function, in ssa.Instruction) {
 		}
 		name := calleeName(a.c, v)
 		switch name {
+		case "(int128).toFloat64":
+			// the one rounding of an exact 128-bit integer: integer-valued, sign and zero-ness exact, up to 2w+2 bits
+			a.set(v, wval{wIFlt, 2*a.w + 2})
+			return
 		case "math.Abs", "math.Round", "math.Floor", "math.Ceil", "math.Trunc", "math.RoundToEven":
 			a.set(v, a.get(com.Args[0]))
 			return
@@ -504,7 +512,9 @@ func ruleExactFloat(rule string, w int, fns []string, why string) func(*Ctx) {
 					if !ok || !isFloat(bo.Type()) {
 						continue
 					}
-					if bo.Op != token.MUL && bo.Op != token.ADD && bo.Op != token.SUB {
+					// multiplication preserves the sign and zero-ness of its operands in IEEE arithmetic (integers cannot
+					// underflow); only addition/subtraction of rounded operands can cancel to a wrong sign or to zero
+					if bo.Op != token.ADD && bo.Op != token.SUB {
 						continue
 					}
 					nf++
@@ -521,7 +531,7 @@ func ruleExactFloat(rule string, w int, fns []string, why string) func(*Ctx) {
 				badPos = f.Pos()
 			}
 			c.check(bad == "", rule, fmt.Sprintf("%s:%s", rule, name), badPos, name,
-				fmt.Sprintf("%d float +,-,* operations; none combines integer-derived operands beyond 53 bits (coordinates %d bits)", nf, w), bad, why)
+				fmt.Sprintf("%d float additions/subtractions; none combines integer-derived operands beyond 53 bits (coordinates %d bits); products keep sign and zero-ness", nf, w), bad, why)
 		}
 	}
 }
